@@ -33,3 +33,20 @@ Definition por (a b : pyf) : pyf :=                                 (* a or b : 
   match a with PVal q => if Qeq_bool q 0 then b else a | _ => a end.
 Definition pif_isnan (c a b : pyf) : pyf :=                         (* a if np.isnan(c) else b *)
   match c with PNaN => a | PVal _ => b | PErr => PErr end.
+
+(* bigQ arithmetic rounded (towards -oo) to a multiple of 2^-p after every operation: the exact rational evaluation
+   of the order-k cell functions has numerators of ~4^k * 330 bits per factor, which vm_compute cannot multiply in the
+   time budget; the rounded instance is used for the bulk of the correspondence and is itself cross-checked against
+   the exact instance [QOps] on small cases. *)
+Definition rnd_bits : N := 256%N.
+Definition bigQ_rnd (x : bigQ) : bigQ :=
+  match x with
+  | BigQ.Qz _ => x
+  | BigQ.Qq n d => if BigN.eqb d BigN.zero then BigQ.Qz BigZ.zero
+                   else BigQ.Qq (BigZ.div (BigZ.shiftl n (BigZ.of_Z (Z.of_N rnd_bits))) (BigZ.Pos d))
+                                (BigN.shiftl BigN.one (BigN.of_N rnd_bits))
+  end.
+Definition QOpsR : NumOps bigQ :=
+  mkOps bigQ 0%bigQ 1%bigQ (fun a b => bigQ_rnd (BigQ.add a b)) (fun a b => bigQ_rnd (BigQ.sub a b))
+        (fun a b => bigQ_rnd (BigQ.mul a b)) (fun a b => bigQ_rnd (BigQ.div a b)) BigQ.opp
+        (fun q => bigQ_rnd (BigQ.of_Q q)) bigQ_ltb.
